@@ -80,6 +80,11 @@ fn templates() -> Vec<Tpl> {
     }));
     t("hv2", 2, true, Box::new(|h| call("hv2", h)));
     t(".ht1", 2, true, Box::new(|h| mcall(h[0].clone(), "ht", vec![h[1].clone()])));
+    // host functions whose names start with `_` (operator names start with `_`, `!`, `-`, `@`)
+    t("_h1", 1, true, Box::new(|h| call("_h", h)));
+    t("_h2", 2, true, Box::new(|h| call("_h", h)));
+    t("._h1", 2, true, Box::new(|h| mcall(h[0].clone(), "_h", vec![h[1].clone()])));
+    t("_h_chain", 1, true, Box::new(|h| call("_h", vec![call("_h", vec![call("_h", h)])])));
     // This<T> behind and between positional parameters (function style: it takes the next argument)
     t("hpt3", 3, true, Box::new(|h| call("hpt", h)));
     t("ht2", 2, true, Box::new(|h| call("ht", h)));
@@ -112,6 +117,7 @@ pub fn model_env() -> Env {
     env.hosts.insert("hp2".into(), Host::Typed(vec!["int", "int"]));
     env.hosts.insert("hp4".into(), Host::Typed(vec!["int", "int", "int", "int"]));
     env.hosts.insert("ht".into(), Host::Ident);
+    env.hosts.insert("_h".into(), Host::Ident);
     env.hosts.insert("hpt".into(), Host::Typed(vec!["any", "any", "any"]));
     env
 }
